@@ -51,6 +51,7 @@ type xlFunc struct {
 	RecFuel  string   // the function is recursive: LEAN expression over its parameters bounding the recursion depth (fuel of `<Lean>_rec`)
 	RecGroup string   // mutually recursive functions (consecutive whitelist entries with the same group) are emitted in one `mutual` block
 	External string   // already emitted in another generated file under this qualified Lean name: translated for the call interface only
+	Dispatch string   // synthetic entry (translate_dispatch.go): the dynamic dispatch of the interface method dom.<Dispatch>.<Name> on the implementations
 }
 
 var xlWhitelist = []xlFunc{
@@ -100,6 +101,9 @@ type xlWorld struct {
 	out     []string // definitions in order
 	dom     bool     // translate_dom.go features: DOM interface types, every function in the Res monad
 	recs    map[*types.Func]*xlRec
+	// translate_dispatch.go
+	dispDone map[string]string // interface method name -> generated dispatcher (once its group is emitted)
+	disps    map[*xlFunc]*xlDisp
 }
 
 type xlDone struct {
@@ -208,7 +212,8 @@ func genFrom(repo string, whitelist []xlFunc, dom bool, header, footer string) (
 	}
 	defer os.Chdir(cwd)
 	w := &xlWorld{fset: token.NewFileSet(), pkgs: map[string]*xlPkg{}, tpkgs: map[string]*types.Package{},
-		done: map[*types.Func]*xlDone{}, structs: map[*types.Named]string{}, repo: repo, dom: dom, recs: map[*types.Func]*xlRec{}}
+		done: map[*types.Func]*xlDone{}, structs: map[*types.Named]string{}, repo: repo, dom: dom, recs: map[*types.Func]*xlRec{},
+		dispDone: map[string]string{}, disps: map[*xlFunc]*xlDisp{}}
 	w.base = importer.ForCompiler(w.fset, "source", nil).(types.ImporterFrom)
 	for i := 0; i < len(whitelist); {
 		// a maximal run of entries with the same non-empty RecGroup is one mutual block
@@ -225,7 +230,7 @@ func genFrom(repo string, whitelist []xlFunc, dom bool, header, footer string) (
 				return "", err
 			}
 			fd := p.find(f.Recv, f.Name)
-			if fd == nil {
+			if fd == nil && f.Dispatch == "" {
 				return "", fmt.Errorf("whitelisted function %s.%s.%s not found", f.Pkg, f.Recv, f.Name)
 			}
 			fds, ps = append(fds, fd), append(ps, p)
